@@ -35,12 +35,42 @@ pub fn is_valid_identifier(s: &str) -> bool {
     chars.all(|c| c.is_ascii_alphanumeric() || c == '_')
 }
 
+/// Write a string as a string literal.
+/// String literals have no escape sequences: a literal ends at the next occurrence of
+/// its opening quote and every other character stands for itself. So the quote that
+/// does not occur in the string is used; returns None if both kinds of quote occur.
+fn quote_string_literal(s: &str) -> Option<String> {
+    if !s.contains('"') {
+        Some(format!("\"{}\"", s))
+    } else if !s.contains('\'') {
+        Some(format!("'{}'", s))
+    } else {
+        None
+    }
+}
+
+/// Write a string as source text: a literal if possible, otherwise a parenthesised
+/// concatenation of literals (for strings containing both kinds of quote)
+pub fn string_to_source(s: &str) -> String {
+    match quote_string_literal(s) {
+        Some(literal) => literal,
+        None => {
+            let parts: Vec<String> = s.split('"').map(|part| format!("\"{}\"", part)).collect();
+            format!("({})", parts.join(" + '\"' + "))
+        }
+    }
+}
+
 /// Format a record key, adding quotes if necessary
 pub fn format_record_key(key: &str) -> String {
     if is_valid_identifier(key) {
         key.to_string()
     } else {
-        format!("\"{}\"", key.replace('\\', "\\\\").replace('"', "\\\""))
+        match quote_string_literal(key) {
+            Some(literal) => literal,
+            // No literal can hold the key: use a computed key
+            None => format!("[{}]", string_to_source(key)),
+        }
     }
 }
 
@@ -53,7 +83,7 @@ pub fn expr_to_source(spanned_expr: &SpannedExpr) -> String {
                 n.to_string()
             }
         }
-        Expr::String(s) => format!("\"{}\"", s.replace("\\", "\\\\").replace("\"", "\\\"")),
+        Expr::String(s) => string_to_source(s),
         Expr::Bool(b) => b.to_string(),
         Expr::Null => "null".to_string(),
         Expr::Identifier(name) => name.clone(),
@@ -345,7 +375,7 @@ pub fn expr_to_source_with_scope(
                 n.to_string()
             }
         }
-        Expr::String(s) => format!("\"{}\"", s.replace("\\", "\\\\").replace("\"", "\\\"")),
+        Expr::String(s) => string_to_source(s),
         Expr::Bool(b) => b.to_string(),
         Expr::Null => "null".to_string(),
         Expr::BuiltIn(built_in) => built_in.name().to_string(),
@@ -544,9 +574,7 @@ fn serializable_value_to_source(value: &SerializableValue) -> String {
         }
         SerializableValue::Bool(b) => b.to_string(),
         SerializableValue::Null => "null".to_string(),
-        SerializableValue::String(s) => {
-            format!("\"{}\"", s.replace("\\", "\\\\").replace("\"", "\\\""))
-        }
+        SerializableValue::String(s) => string_to_source(s),
         SerializableValue::List(items) => {
             let items_str: Vec<String> = items.iter().map(serializable_value_to_source).collect();
             format!("[{}]", items_str.join(", "))
